@@ -115,7 +115,20 @@ claim("C07", "Basis",
       "NOT decided: proportionality to the convolution inside the pulse (complex error function; DESIGN §6). Two recorded findings (frequency folding, NaN inside the pulse). Trusted: TLC, elementary-function interpreter.",
       "DESIGN.md §5 C07")
 
+claim("C16", "ParamTable",
+      "TLA+ specs ParamTable.tla (tables as rows of cell classes; Save / Load / SaveAgain with a schema-driven Load; RoundTrip, OrderPreserved, ExprNotVaried, Idempotent) and ParamFromSpec.tla (containers x default blocks x item forms; NumbersArePositions, OwnOptionsWin, DefaultsApply) model-checked; every enumerated table concretised and pushed through save_parameters/load_parameters for csv, tsv, xlsx, ods (field-by-field, NaN-aware, bit-equal floats, label order, second cycle identical) and every specification loaded as python / yml_str / yml file",
+      "All tables of 1-3 rows in which up to two columns deviate from the default column in every homogeneous or mixed way (the reader's type inference depends on the column's composition), four formats, two cycles; all list/dict specification forms incl. scientific-notation strings and expressions.",
+      "Float equality is the harness's projection (bit-equal after text round trip). Recorded findings: xlsx 16-digit floats and float-max. Trusted: TLC, Json module.",
+      "DESIGN.md §5 C16")
+claim("C17", "Persist",
+      "TLA+ spec Persist.tla (files: Loc x Name -> Token, references as none/rel/up/abs, in-memory source paths, cwd; SaveResult(options) / LoadResult / MoveFolder / ChangeCwd / SaveModel / LoadModel / SaveDataset / LoadDataset / SaveScheme / LoadScheme; RefsRelative, LoadAfterMove, LoadSaveIdentity, NoAbsoluteRefs) model-checked; every transition replayed at the end of a re-executed shortest history on the real save_*/load_* functions in temp trees; model generator (every item type) round trips with equal as_dict() and equal objective; netCDF bit-equality; ASCII formats on non-square data in both dim orders; real optimisation results through TLC-emitted save/move/load behaviours",
+      "All histories of <= 3 (quick) / 4-5 (thorough) operations over absolute/relative file/dir spellings and SavingOptions; stored references must be relative, posix, inside the result folder; loaded objects equal what was saved (parameters, histories, statistics, bit-equal datasets).",
+      "Value equality is the harness's projection. One recorded finding (standalone scheme files with cwd-relative source paths). Trusted: TLC, Json module.",
+      "DESIGN.md §5 C17")
+
 ENGINES = [
+    {"name": "ParamTable", "path": "spec/ParamTable.tla", "serves_properties": ["C16"], "kind_free_text": "TLA+ ParamTable(+Emit), ParamFromSpec(+Emit); harness/c16.py"},
+    {"name": "Persist", "path": "spec/Persist.tla", "serves_properties": ["C17"], "kind_free_text": "TLA+ Persist(+Emit); harness/c17.py, c17_world.py, c17_content.py"},
     {"name": "IrfIndex", "path": "spec/IrfIndex.tla", "serves_properties": ["C05", "C07"], "kind_free_text": "TLA+ IrfIndex.tla(+Emit), Basis.tla(+Emit); harness/c05.py, c07.py, drivers_irf.py"},
     {"name": "Optimizer", "path": "spec/Optimizer.tla", "serves_properties": ["C10", "C15"], "kind_free_text": "TLA+ life-cycle + purity state machine, OptimizerEmit, OptimizerWalk, OptimizerTrace; harness/c10*.py, c15*.py"},
     {"name": "ParamTransform", "path": "spec/ParamTransform.tla", "serves_properties": ["C11"], "kind_free_text": "TLA+ ParamTransform.tla, Fit.tla, FitTrace.tla; harness/c11*.py"},
